@@ -136,7 +136,8 @@ func (s *Swarm[T]) getFullAddr(ctx context.Context, addr Addr[T]) (*p2pke.Channe
 					PrivateKey: s.privateKey,
 					AcceptKey: func(pubKey *x509.PublicKey) bool {
 						id := s.config.fingerprinter(pubKey)
-						return id == addr.ID
+						// the peer's replies are delivered through this channel too: it must pass the whitelist
+						return id == addr.ID && s.config.whitelist(Addr[T]{ID: id, Addr: addr.Addr})
 					},
 					Send: s.getSender(addr.Addr),
 				}),
